@@ -142,6 +142,18 @@ func parseObjects(
 		}
 
 		if len(obj.Object) != 0 {
+			// The condition-map annotation is parsed again when the ObjectSet template is rendered,
+			// where no error can be returned anymore: reject malformed values here.
+			if _, cmErr := parseConditionMapAnnotation(&obj); cmErr != nil {
+				err = packagetypes.ViolationError{
+					Reason:  packagetypes.ViolationReasonInvalidConditionMap,
+					Details: cmErr.Error(),
+					Path:    path,
+					Index:   ptr.To(idx),
+				}
+				return
+			}
+
 			obj.SetLabels(labels.Merge(obj.GetLabels(), commonLabels(manifest, tmplCtx.Package.Name)))
 			objects = append(objects, obj)
 		}
